@@ -1110,6 +1110,15 @@ pub fn check_main(reg: &Registry, id: &str, tier: Tier) -> i32 {
         println!("INCONCLUSIVE property={} generator starved: only {} of {} cases were non-trivial by the stated rule", id, distinct.len(), evaluations);
         return 2;
     }
+    if exit == 0 {
+        for (name, floor) in prop.floors.iter() {
+            let have = *counters.get(*name).unwrap_or(&0) as f64 / (evaluations.max(1) as f64);
+            if evaluations >= 1000 && have < *floor {
+                println!("INCONCLUSIVE property={} generator starved: counter '{}' is {:.3} per case, floor {:.3}", id, name, have, floor);
+                return 2;
+            }
+        }
+    }
     if exit == 0 && (incomplete_workers > 0) {
         // a worker vanished without an attributable case: never a pass
         println!("INCONCLUSIVE property={} {} worker(s) ended without a result", id, incomplete_workers);
